@@ -151,4 +151,69 @@ theorem c05_text_clause1 (t : Tree) (hwf : t.wf = true) (errText : Nat → Str) 
   rw [hs.2.1, hs.2.2.1]
   exact showsValue_formatValue _ _ _
 
+
+/-! ### clause 5 -/
+
+theorem frames_one_line (t : Tree) (hc : chainOk true t.root = true)
+    (hrepr : ∀ c, c ∈ callsOf (events t) → NoNL c.spec ∧ NoNL c.target) : FramesOneLine (replay (events t)) := by
+  intro j f hf
+  rcases replay_frame_cases t hc j f hf with ⟨_, h1, h2⟩ | ⟨_, c, hcm, _, hs⟩
+  · rw [h1, h2]; exact ⟨fun c hc => by simp at hc, fun c hc => by simp at hc⟩
+  · rw [← hs.1, ← hs.2.1]; exact hrepr c hcm
+
+/-- **clause 5 of `checkC05` holds of the model's text**: every `Spec:` line of nesting depth 0 shows
+    a call that raised or a completed step of a chain a later step of which raised — nothing that
+    returned normally is listed below the failing spec.
+    Hypotheses: spec and target texts have no line break; no line of an error text is read as a
+    `Spec:` line (an error text is printed verbatim). -/
+theorem c05_text_clause5 (t : Tree) (hwf : t.wf = true) (errText : Nat → Str) (width : Nat)
+    (hrepr : ∀ c, c ∈ callsOf (events t) → NoNL c.spec ∧ NoNL c.target) (herr : ErrLabelFree errText) :
+    nothingReturnedBelow (events t) (callsOf (events t)) (spine (callsOf (events t)) t.err)
+      (traceLines t errText width) = true := by
+  have hwf' := hwf
+  simp only [Tree.wf, Bool.and_eq_true] at hwf'
+  obtain ⟨hc, ho⟩ := hwf'
+  have hop : onePath t.err t.root = true := by simpa [Tree.root, onePath] using ho
+  have hren := c05_renderable t hc
+  have hfs := frames_one_line t hc hrepr
+  have hstart : startOK t.err 1 t.root 1 = true := by simp [startOK, Tree.root, segRes, Kids.startsChained]
+  have hsz : 1 < 1 + t.root.size := by simp [Tree.root, Kids.size]; omega
+  unfold nothingReturnedBelow traceLines
+  simp only []
+  rw [filterMap_filter_top, traceText_toList]
+  have htop := top_specs (replay (events t)) errText t.err width ((replay (events t)).size + 1) 1 none true hfs herr hren
+  unfold linesMap at htop
+  rw [htop]
+  apply foldl_ok_true _ _ _ _ rfl
+  intro shown hshown
+  right
+  obtain ⟨r, hrm, hsh⟩ := List.mem_filterMap.mp hshown
+  obtain ⟨r', hm', hfr, _, _⟩ := unpack_mem_rowsAt t hc 1 (by omega) hsz r hrm
+  have hrange := rowsAt_frame_range t.root 1 1 r' hm' (by omega)
+  have herr' := rowsAt_all_error t.err t.root 1 1 hop hstart r' hm'
+  have hcur : r'.error = ((replay (events t))[r'.frame]?).bind (·.curError) := by
+    apply unpackLoop_error (replay (events t)) (replay (events t)).size 1 [] (by simp) r'
+    rw [loop_rowsAt t hc 1 (by omega) hsz]
+    exact hm'
+  rw [hfr] at hsh
+  cases hf : (replay (events t))[r'.frame]? with
+  | none => rw [hf] at hsh; simp at hsh
+  | some f =>
+    rw [hf] at hsh hcur
+    simp only [Option.map_some, Option.some.injEq] at hsh
+    simp only [Option.bind_some] at hcur
+    have hfa : frameAt 0 none 1 t.root r'.frame = some f := by
+      rw [← (replay_frames t hc).2 r'.frame hrange.1]; exact hf
+    obtain ⟨c, hcm, hidx, hs⟩ := frameAt_call t.root none 0 none 1 r'.frame f hfa
+    simp only [List.any_eq_true, Bool.and_eq_true]
+    refine ⟨c, by rw [callsOf_events]; exact hcm, ?_, ?_⟩
+    · rw [← hsh, hs.1, hs.2.2.2]
+      exact showsValue_formatValue _ _ _
+    · rw [hidx]
+      apply roc_of_curError (callsOf (events t)) (chainedEnters (events t)) t.root none 0 none 1 r'.frame f _ hfa
+        (by rw [← hcur]; exact herr') hrange.1
+      · rw [callsOf_events, callsK_length]; omega
+      · intro c' hc'; rw [callsOf_events]; exact hc'
+      · intro pd hpd; rw [chainedEnters_events]; exact hpd
+
 end Glom.Props.C05
